@@ -293,6 +293,12 @@ pub fn entry_points() -> Vec<EntryPoint> {
         v.push(EntryPoint { name: "Element::deserialize_compressed", any_len: true, stream: true, f: |s| ser(El::deserialize_compressed(s)) });
         v.push(EntryPoint { name: "Element::deserialize_with_mode(Yes,Yes)", any_len: true, stream: true, f: |s| ser(El::deserialize_with_mode(s, Compress::Yes, Validate::Yes)) });
         v.push(EntryPoint { name: "AffinePoint::deserialize_compressed", any_len: true, stream: true, f: |s| ser(Af::deserialize_compressed(s).map(|a| a.into())) });
+        v.push(EntryPoint { name: "Element::deserialize_compressed (reader delivering 1..7 bytes per read)", any_len: true, stream: true, f: |s| ser(El::deserialize_compressed(crate::fld::Trickle { data: s, pos: 0, step: 1 + s.len() % 7 })) });
+        v.push(EntryPoint { name: "AffinePoint::deserialize_compressed (chained readers)", any_len: true, stream: true, f: |s| {
+            use ark_std::io::Read;
+            let cut = s.len() / 2;
+            ser(Af::deserialize_compressed((&s[..cut]).chain(&s[cut..])).map(|a| a.into()))
+        } });
         v.push(EntryPoint { name: "Encoding::deserialize_compressed + decompress", any_len: true, stream: true, f: |s| match Encoding::deserialize_compressed(s) {
             Ok(e) => v_of(e.vartime_decompress()),
             Err(e) => ser(Err(e)),
